@@ -26,6 +26,10 @@ int rfc1035NameUnpack(const char *buf, size_t sz, unsigned int *off, unsigned sh
 #else
 #define CV_REAL_RRUNPACK rfc1035RRUnpack
 #endif
+#ifdef M_XCALLOC_SPLIT
+/* target message_body: calls of xcalloc in rfc1035.c go to the constant-size case split in models.c (same contract) */
+#define xcalloc cv_xcalloc_split
+#endif
 #if defined(M_QUERYUNPACK) || defined(M_RRUNPACK)
 #include <sys/types.h>
 #include <netinet/in.h>
